@@ -5,7 +5,7 @@
 EXTENDS GenQuery, EQLMech3, RefWorld
 Doms == << <<1, 2, 3, 4>>, <<3, 1>>, <<2, 4, 1>> >>
 MQ(p, d1, d2) == [vars |-> [j \in 1..NV |-> [cls |-> "A", dom |-> IF j = 1 THEN Doms[d1] ELSE Doms[d2]]],
-                  flats |-> <<>>, bound |-> <<>>, desc |-> p.desc, sel |-> p.sel, cond |-> p.cond]
+                  flats |-> <<>>, bound |-> p.bound, desc |-> p.desc, sel |-> p.sel, cond |-> p.cond]
 MechEqualsSem ==
   done # <<>> => \A d1 \in 1..2, d2 \in 2..3 :
      LET q == MQ(done[1], d1, d2)
@@ -20,4 +20,16 @@ Mech3EqualsSem ==
   done # <<>> => \A d1 \in 1..2, d2 \in 2..3 :
      LET q == MQ(done[1], d1, d2)
      IN \A k \in 1..2 : Mech3Sound(q, RefW, k) /\ Mech3Complete(q, RefW, k) /\ Mech3NoDup(q, RefW, k)
+\* stage B4: for_all over a plain universal variable (or an attribute of it), alone or conjoined with conditions on the
+\* free variable; first evaluation and re-evaluation
+RECURSIVE ForAllPlain(_)
+ForAllPlain(c) ==
+  CASE c.k = "forall" -> (c.ue.k = "var" \/ (c.ue.k = "attr" /\ c.ue.e.k = "var")) /\ ForAllPlain(c.c)
+    [] c.k \in {"and", "or"} -> ForAllPlain(c.l) /\ ForAllPlain(c.r)
+    [] c.k = "not" -> ForAllPlain(c.c)
+    [] OTHER -> TRUE
+Mech4EqualsSem ==
+  (done # <<>> /\ ForAllPlain(done[1].cond)) => \A d1 \in 1..2, d2 \in 2..3 :
+     LET q == MQ(done[1], d1, d2)
+     IN \A k \in 1..2 : Mech3Sound(q, RefW, k) /\ Mech3Complete(q, RefW, k)
 =============================================================================
